@@ -4,6 +4,7 @@ import (
 	"encoding/json"
 	"fmt"
 	"os"
+	"os/exec"
 	"path/filepath"
 	"sort"
 	"strings"
@@ -115,7 +116,7 @@ func writeEvidence(path string, d *Descriptor, tier string, seed int, results []
 		"seed":        seed,
 		"level":       "model_checking",
 		"coverage":    cov,
-		"assumptions": append([]string{"go/packages + go/ssa (x/tools v0.29.0) build the SSA of /repo's working tree", "symgo executor and its models (validated by native replay of solver witnesses on every run)", "z3 4.8.12"}, d.Models...),
+		"assumptions": append([]string{"go/packages + go/ssa (x/tools v0.29.0) build the SSA of /repo's working tree", "symgo executor and its models (validated by native replay of solver witnesses on every run)", solverVersion()}, d.Models...),
 		"wall_s":      round3(wall.Seconds()),
 		"violations":  nViol,
 	}
@@ -138,4 +139,13 @@ func max1(n int) int {
 		return 1
 	}
 	return n
+}
+
+// solverVersion reports the solver binary in use and what it says about itself.
+func solverVersion() string {
+	out, err := exec.Command(solverBin(), "--version").Output()
+	if err != nil {
+		return solverBin() + " (version unknown)"
+	}
+	return solverBin() + ": " + strings.TrimSpace(string(out))
 }
